@@ -215,11 +215,131 @@ def parts_lookup(chk, tier, seed):
     chk.extra["leader_lookup_scenarios"] = len(vecs)
 
 
+# ---------------------------------------------------------------- request bound and timer life (C11)
+def run_timeout(sc):
+    """one request with the scenario's bound on the real client; a bystander request on the same broker"""
+    import afkak.client as ac
+    from afkak import common as C
+    from afkak.client import KafkaClient
+    from afkak.kafkacodec import KafkaCodec
+    from . import sim, simkafka
+
+    clock, net = sim.SimClock(), sim.SimNet()
+    cl = simkafka.Cluster(net)
+    cl.add_broker(1, "k1", 9001)
+    cl.add_topic("a", {0: 1})
+    client = KafkaClient("k1:9001", timeout=sc["client"] * 1000.0, reactor=clock, endpoint_factory=net.endpoint_factory,
+                         retry_policy=lambda f: 0.5, enable_protocol_version_discovery=False, disconnect_on_timeout=bool(sc["dot"]))
+
+    def settle():
+        for _ in range(30):
+            did = cl.autopilot_connects()
+            did = bool(cl.pump_all()) or did
+            did = cl.reap() or did
+            for dc in list(clock.getDelayedCalls()):
+                if clock.delays.get(id(dc)) == 500000 and dc.active():
+                    dc.reset(0)
+                    did = True
+            clock.advance(0)
+            if not did:
+                break
+
+    out = []
+    # learn the cluster first
+    d0 = client.load_metadata_for_topics("a")
+    settle()
+    for tr, c in list(cl.conns.items()):
+        p = c.oldest()
+        if p is not None:
+            cl.answer(p)
+    settle()
+    broker = client._get_brokerclient(1)
+    before = set(id(dc) for dc in clock.getDelayedCalls())
+    req_id = client._next_id()
+    request = KafkaCodec.encode_metadata_request(client._clientIdBytes, req_id, ["a"])
+    kw = {"min_timeout": float(sc["min"])} if sc["min"] else {}
+    d = client._make_request_to_broker(broker, req_id, request, **kw)
+    d.addBoth(out.append)
+    settle()
+    mine = [dc for dc in clock.getDelayedCalls() if id(dc) not in before]
+    armed = sorted(clock.delays.get(id(dc), -1) for dc in mine)
+    # a bystander on the same connection, issued a little later
+    clock.advance(1.0)
+    by_id = client._next_id()
+    by_out = []
+    db = client._make_request_to_broker(broker, by_id, KafkaCodec.encode_metadata_request(client._clientIdBytes, by_id, ["a"]))
+    db.addBoth(by_out.append)
+    settle()
+    n_wire0 = len(cl.received)
+    if sc["fate"] == "answered":
+        for p in cl.received:
+            if not p.answered and p.req["corr"] == req_id:
+                cl.answer(p)
+        settle()
+    elif sc["fate"] == "cancelled":
+        d.cancel()
+        settle()
+    # let time pass up to just before the bystander's own deadline: the request's deadline lies inside
+    bound = max(sc["client"], sc["min"]) if sc["min"] else sc["client"]
+    horizon = bound + 0.5
+    if sc["fate"] != "silent":
+        horizon = min(horizon, sc["client"] + 0.5)      # the bystander must not reach its own deadline
+    t_end = clock.seconds() + horizon - 1.0
+    while True:
+        nd = clock.next_due()
+        if nd is None or nd.getTime() > t_end:
+            break
+        clock.advance(nd.getTime() - clock.seconds())
+        settle()
+        if by_out and sc["fate"] != "silent":
+            break
+    left = [dc for dc in mine if dc.active()]
+    resent = sum(1 for p in cl.received[n_wire0:] if p.req["corr"] == by_id)
+    r = out[0] if out else None
+    outcome = "pending" if r is None else ("ok" if not hasattr(r, "check") else
+                                           "timed_out" if r.check(C.RequestTimedOutError) else
+                                           "cancelled" if r.check(defer_CancelledError()) else "fail:" + type(r.value).__name__)
+    return {"armed_us": armed, "outcome": outcome, "timers_left": len(left), "bystander_resent": resent > 0,
+            "bystander_done_early": bool(by_out) and sc["fate"] != "silent" and hasattr(by_out[0], "check")}
+
+
+def defer_CancelledError():
+    from twisted.internet import defer
+    return defer.CancelledError
+
+
+def timeouts(chk, tier, seed):
+    wd = tlc.workdir("C11-%s-timeouts" % tier)
+    res, vecs = vectors(wd, "Timeouts", ["INVARIANT BoundIsFloor"], "MC_timeouts")
+    chk.add_model("Timeouts", res, {"client timeout s": [5, 10, 60], "minimum s": ["none", 35], "fate": ["answered", "silent", "cancelled"],
+                                    "disconnect_on_timeout": [True, False]},
+                  "one state per scenario; invariant: the bound is the larger of the client's timeout and the caller's minimum")
+    for sc, exp in vecs:
+        o = run_timeout(sc)
+        chk.count("C11.bound_scenarios")
+        what = None
+        if o["armed_us"] != [exp["bound"] * 1000000]:
+            what = "timer armed with %r microseconds, expected [%d]" % (o["armed_us"], exp["bound"] * 1000000)
+        elif o["outcome"] != exp["outcome"]:
+            what = "request ended as %s, expected %s" % (o["outcome"], exp["outcome"])
+        elif o["timers_left"] != exp["timersLeft"]:
+            what = "%d timer(s) of the request still armed after it was over" % o["timers_left"]
+        elif exp["bystanderUndisturbed"] and (o["bystander_resent"] or o["bystander_done_early"]):
+            what = "another request on the same connection was disturbed (re-sent=%s, failed early=%s)" % (o["bystander_resent"], o["bystander_done_early"])
+        if what:
+            sig = "client=%d/min=%d/%s/%s" % (sc["client"], sc["min"], sc["fate"], "dot" if sc["dot"] else "nodot")
+            chk.violation("C11.request_bound", sig, "request bound scenario %s: %s" % (sig, what),
+                          {"family": "timeouts", "scenario": sc, "expected": exp, "observed": o})
+    chk.extra["request_bound_scenarios"] = len(vecs)
+
+
 def replay(rp):
     """re-run the scenario of a replay file written by this module; exit 1 when it still fails"""
     import json
     if rp["family"] == "negotiation":
         o = run_negotiation(rp["scenario"])
+    elif rp["family"] == "timeouts":
+        o = run_timeout(rp["scenario"])
     else:
         o = run_parts(rp["scenario"])
     print(json.dumps({"scenario": rp["scenario"], "expected": rp["expected"], "observed_then": rp["observed"], "observed_now": o},
